@@ -171,3 +171,78 @@ def get_arg(call: ast.Call, pos: int, name: str):
         if k.arg == name:
             return k.value
     return None
+
+
+def local_names(fn) -> List[str]:
+    """purely local variables of fn in order of first binding (source order): bound by assignment / for / with in fn's own
+    scope; parameters, globals, names rebound in nested scopes, comprehension targets, imports and handler names excluded"""
+    fdefs = (ast.FunctionDef, ast.AsyncFunctionDef)
+    own: List[str] = []
+    banned = set()
+
+    def scan(node, depth):
+        for ch in ast.iter_child_nodes(node):
+            if isinstance(ch, fdefs + (ast.Lambda,)):
+                a = ch.args
+                for x in a.posonlyargs + a.args + a.kwonlyargs + [a.vararg, a.kwarg]:
+                    if x is not None:
+                        banned.add(x.arg)
+                if isinstance(ch, fdefs):
+                    banned.add(ch.name)
+                scan(ch, depth + 1)
+            elif isinstance(ch, ast.ClassDef):
+                banned.add(ch.name)
+                for n in ast.walk(ch):
+                    if isinstance(n, ast.Name):
+                        banned.add(n.id)
+            elif isinstance(ch, (ast.ListComp, ast.SetComp, ast.DictComp, ast.GeneratorExp)):
+                for g in ch.generators:
+                    for n in ast.walk(g.target):
+                        if isinstance(n, ast.Name):
+                            banned.add(n.id)
+                scan(ch, depth)
+            elif isinstance(ch, (ast.Global, ast.Nonlocal)):
+                banned.update(ch.names)
+            elif isinstance(ch, (ast.Import, ast.ImportFrom)):
+                for al in ch.names:
+                    banned.add((al.asname or al.name).split(".")[0])
+            elif isinstance(ch, ast.ExceptHandler):
+                if ch.name:
+                    banned.add(ch.name)
+                scan(ch, depth)
+            else:
+                if isinstance(ch, ast.Name) and isinstance(ch.ctx, (ast.Store, ast.Del)):
+                    if depth == 0:
+                        if ch.id not in own:
+                            own.append(ch.id)
+                    else:
+                        banned.add(ch.id)
+                scan(ch, depth)
+
+    a = fn.args
+    for x in a.posonlyargs + a.args + a.kwonlyargs + [a.vararg, a.kwarg]:
+        if x is not None:
+            banned.add(x.arg)
+    scan(fn, 0)
+    return [n for n in own if n not in banned]
+
+
+def alpha(fn, prefix="L"):
+    """copy of fn whose purely local variables are renamed L0, L1, ... in order of first binding: two functions that differ
+    only in the names of their locals have the same alpha form"""
+    import copy
+    fn2 = copy.deepcopy(fn)
+    names = local_names(fn2)
+    # source order of first binding
+    first = {}
+    for n in ast.walk(fn2):
+        if isinstance(n, ast.Name) and isinstance(n.ctx, (ast.Store, ast.Del)) and n.id in names:
+            key = (n.lineno, n.col_offset)
+            if n.id not in first or key < first[n.id]:
+                first[n.id] = key
+    order = sorted(names, key=lambda x: first.get(x, (1 << 30, 0)))
+    ren = {n: f"{prefix}{i}" for i, n in enumerate(order)}
+    for n in ast.walk(fn2):
+        if isinstance(n, ast.Name) and n.id in ren:
+            n.id = ren[n.id]
+    return fn2
